@@ -735,10 +735,21 @@ def fix_case(case):
     return prog, sched
 
 
-def explore_listeners(ctx, cases, monitors):
-    """impl-only stream: control requests issued from inside listener notifications (during transitions).
-    cases: (name, prog, schedule, plan). The process-control model has no listener oracle, so there is no correspondence
-    here; the Python monitors decide."""
+def plan_line(plan):
+    """the oracle of a listener case as a line of the `pmodel pml` protocol"""
+    return 'plan ' + ' '.join(f'{k[0]}:{k[1]}:{v}' for k, v in plan.items())
+
+
+def listener_head(prog, plan):
+    """program, plan (and the StateEntryFailed marker of a program whose required output is never emitted) for `pmodel pml`"""
+    return prog_lines(prog) + [plan_line(plan)] + (['entryfails'] if prog.get('missing_output') else [])
+
+
+def explore_listeners(ctx, cases, monitors, chunk=400):
+    """control requests issued from inside listener notifications and state-event callbacks (during transitions).
+    cases: (name, prog, schedule, plan). The real runs are decided by the Python monitors AND compared, observation by observation
+    after every op, with the process-control model with listeners (lean/PlumpyModel/PM/Listener.lean, `pmodel pml`), which gets
+    the same program, the plan and the ops the harness performed."""
     import multiprocessing as mp
     work = [(prog, sched, monitors, plan) for _, prog, sched, plan in cases]
     with mp.Pool(ctx.workers) as pool:
@@ -752,4 +763,47 @@ def explore_listeners(ctx, cases, monitors):
             f['case'] = dict(program=name, prog=prog, schedule={str(k): v for k, v in sched.items()},
                              listener_plan=[[k[0], k[1], v] for k, v in plan.items()], ops=rec['ops'])
             failures.append(f)
-    return dict(evaluations=len(cases), failures=failures, listener_requests_issued=issued)
+    # model
+    chunks, spans = [], []
+    cur, curspan = [], []
+    for (name, prog, sched, plan), rec in zip(cases, recs):
+        head = listener_head(prog, plan)
+        curspan.append((len(cur), len(head), len(rec['ops'])))
+        cur.extend(head + rec['ops'])
+        if len(curspan) >= chunk:
+            chunks.append(cur); spans.append(curspan); cur, curspan = [], []
+    if curspan:
+        chunks.append(cur); spans.append(curspan)
+    outs = ctx.model.run_parallel('pml', chunks)
+    divergences = []
+    distinct = set()
+    validated = 0
+    ci = 0
+    for chunk_i, spanlist in enumerate(spans):
+        out = outs[chunk_i] if outs is not None else None
+        for (start, nhead, nops) in spanlist:
+            name, prog, sched, plan = cases[ci]
+            rec = recs[ci]
+            if out is not None:
+                mobs = out[start + nhead:start + nhead + nops]
+                validated += 1
+                if len(mobs) != len(rec['obs']):
+                    divergences.append(dict(case=dict(program=name, prog=prog, schedule={str(k): v for k, v in sched.items()},
+                                                      listener_plan=[[k[0], k[1], v] for k, v in plan.items()]),
+                                            op_index=len(mobs), ops=rec['ops'], impl='(%d observations)' % len(rec['obs']),
+                                            model='(%d observations)' % len(mobs), stream='listener'))
+                for j, (a, b) in enumerate(zip(rec['obs'], mobs)):
+                    if 'stepping=?' in a:
+                        b = re.sub(r'stepping=[01]', 'stepping=?', b)
+                    if 'closed=?' in a:
+                        b = re.sub(r'closed=[01]', 'closed=?', b)
+                    if a != b:
+                        divergences.append(dict(case=dict(program=name, prog=prog, schedule={str(k): v for k, v in sched.items()},
+                                                          listener_plan=[[k[0], k[1], v] for k, v in plan.items()]),
+                                                op_index=j, ops=rec['ops'][:j + 1], impl=a, model=b, stream='listener'))
+                        break
+            if rec['listener_ops']:
+                distinct.add(hash((name, tuple(rec['obs']))))
+            ci += 1
+    return dict(evaluations=len(cases), failures=failures, listener_requests_issued=issued, divergences=divergences,
+                traces_validated=validated, distinct_nontrivial=len(distinct))
